@@ -459,31 +459,88 @@ func (s htlcSpec) payload() *payload {
 	return p
 }
 
-// circuitKey: the keys come from a few channels ("links") and share their components the way
-// real circuit keys do -- every channel numbers its HTLCs from 0, so different keys have EQUAL
-// htlc ids on different channels and different ids on the same channel:
+// Circuit keys. The keys come from a few channels ("links") and share their components the way
+// real circuit keys do -- every channel numbers its HTLCs from its own counter, so different keys
+// have EQUAL htlc ids on different channels and different ids on the same channel. A key SCHEME
+// fixes the two channels (c1, c2) of each of the two key groups and the two htlc ids (i1, i2):
 //
-//	k1=(chan 1, htlc 0)  k2=(chan 2, htlc 0)  k3=(chan 1, htlc 1)  k4=(chan 2, htlc 1)
-//	k5=(chan 3, htlc 0)  k6=(chan 4, htlc 0)  k7=(chan 3, htlc 1)  k8=(chan 4, htlc 1)
+//	k1=(c1, i1)  k2=(c2, i1)  k3=(c1, i2)  k4=(c2, i2)        group 0: the sequential part
+//	k5=(c1',i1)  k6=(c2',i1)  k7=(c1',i2)  k8=(c2',i2)        group 1: the concurrent links
 //
-// (k5.. are the keys of the concurrent links of the interleaving part). A store that matches
-// an HTLC by one component only confuses two of them.
-func circuitKey(k int) invpkg.CircuitKey {
-	g := (k - 1) / 4
-	i := (k - 1) % 4
-	return invpkg.CircuitKey{
-		ChanID: lnwire.ShortChannelID{BlockHeight: 700000, TxIndex: uint32(1 + 2*g + i%2), TxPosition: 0},
-		HtlcID: uint64(i / 2),
-	}
+// A store that matches an HTLC by one component only confuses two of them. The VALUES of the
+// components are a dimension of their own (keySchemes): a short channel id is a uint64 that the
+// key-value store writes as 8 big-endian bytes and the SQL store as a decimal string in a TEXT
+// column, an htlc id is a uint64 that the SQL store keeps in a signed BIGINT column, and lnd hands
+// real exit-hop links short channel ids from the whole uint64 range: confirmed channels
+// (block height < 2^23, top bit clear) and SCID aliases of zero-conf / option_scid_alias channels
+// (aliasmgr: block heights 16,000,000 .. 16,250,000, i.e. the uint64 form has the TOP BIT SET).
+type keyScheme struct {
+	Name string
+	C    [2][2]lnwire.ShortChannelID // [group][column]
+	I    [2]uint64
+	Doc  string
 }
 
-func keyIndex(ck invpkg.CircuitKey) int {
+func scid(block, txIndex uint32, pos uint16) lnwire.ShortChannelID {
+	return lnwire.ShortChannelID{BlockHeight: block, TxIndex: txIndex, TxPosition: pos}
+}
+
+const maxHtlcID = uint64(1)<<63 - 1 // the largest htlc id the SQL schema can hold (sql_store.go refuses negative BIGINTs)
+
+var keySchemes = map[string]*keyScheme{
+	// the original alphabet: confirmed channels at block 700000, htlc ids 0 and 1
+	"plain": {Name: "plain",
+		C:   [2][2]lnwire.ShortChannelID{{scid(700000, 1, 0), scid(700000, 2, 0)}, {scid(700000, 3, 0), scid(700000, 4, 0)}},
+		I:   [2]uint64{0, 1},
+		Doc: "confirmed channels 700000:1..4:0, htlc ids 0 / 1"},
+	// c1 = an SCID alias (the first ones lnd's alias manager hands out; uint64 >= 2^63), c2 = a
+	// confirmed channel; i1 = 0, i2 = the largest representable htlc id. The 2x2 of
+	// {alias, confirmed} x {0, 2^63-1} is k1..k4; k1 -- the key of every first HTLC -- is on the alias
+	"wide": {Name: "wide",
+		C:   [2][2]lnwire.ShortChannelID{{scid(16000000, 0, 0), scid(700000, 2, 0)}, {scid(16000000, 0, 1), scid(700000, 4, 0)}},
+		I:   [2]uint64{0, maxHtlcID},
+		Doc: "c1 = SCID alias 16000000:0:0 / 16000000:0:1 (top bit of the uint64 set), c2 = confirmed channel 700000:2:0 / 700000:4:0, htlc ids 0 / 2^63-1"},
+	// the boundaries of the two integer ranges: c1 = the largest uint64, c2 = exactly 2^63 (the
+	// smallest value with the top bit set); group 1: the last alias block and 2^63-1 (the largest
+	// value without the top bit); i1 = 2^32 (lost by any 32-bit truncation), i2 = 2^63-1
+	"edge": {Name: "edge",
+		C: [2][2]lnwire.ShortChannelID{{scid(1<<24-1, 1<<24-1, 1<<16-1), scid(1<<23, 0, 0)},
+			{scid(16249999, 1<<24-1, 1<<16-1), scid(1<<23-1, 1<<24-1, 1<<16-1)}},
+		I:   [2]uint64{1 << 32, maxHtlcID},
+		Doc: "c1 = 2^64-1 / the last alias 16249999:16777215:65535, c2 = 2^63 / 2^63-1, htlc ids 2^32 / 2^63-1"},
+}
+
+// schemeOf resolves a scheme name; "" is the original alphabet (replay artefacts written before
+// the dimension existed).
+func schemeOf(name string) (*keyScheme, error) {
+	if name == "" {
+		name = "plain"
+	}
+	ks, ok := keySchemes[name]
+	if !ok {
+		return nil, fmt.Errorf("unknown circuit-key scheme %q", name)
+	}
+	return ks, nil
+}
+
+func (ks *keyScheme) key(k int) invpkg.CircuitKey {
+	g := (k - 1) / 4
+	i := (k - 1) % 4
+	return invpkg.CircuitKey{ChanID: ks.C[g][i%2], HtlcID: ks.I[i/2]}
+}
+
+func (ks *keyScheme) index(ck invpkg.CircuitKey) int {
 	for k := 1; k <= allKeys; k++ {
-		if circuitKey(k) == ck {
+		if ks.key(k) == ck {
 			return k
 		}
 	}
 	return 0
+}
+
+func (ks *keyScheme) describe(k int) string {
+	ck := ks.key(k)
+	return fmt.Sprintf("chan %s = %d, htlc id %d", ck.ChanID, ck.ChanID.ToUint64(), ck.HtlcID)
 }
 
 // ---------------------------------------------------------------------------------
@@ -917,7 +974,7 @@ func setNumber(id [32]byte) int {
 	return 9
 }
 
-func observe(inv *invpkg.Invoice) invObs {
+func observe(ks *keyScheme, inv *invpkg.Invoice) invObs {
 	o := invObs{Found: true, State: inv.State.String(), Value: uint64(inv.Terms.Value), AmtPaid: uint64(inv.AmtPaid),
 		CltvD: inv.Terms.FinalCltvDelta, IsAMP: inv.IsAMP(), Blinded: inv.IsBlinded(), HodlInv: inv.HodlInvoice}
 	if inv.Terms.Features != nil {
@@ -929,7 +986,7 @@ func observe(inv *invpkg.Invoice) invObs {
 		o.PreOK = p.Hash() == invHash || p.Hash() == ksHash || p.Hash() == otherHash
 	}
 	for ck, h := range inv.Htlcs {
-		ho := htlcObs{Key: keyIndex(ck), State: htlcStateName(h.State), Amt: uint64(h.Amt), Total: uint64(h.MppTotalAmt),
+		ho := htlcObs{Key: ks.index(ck), State: htlcStateName(h.State), Amt: uint64(h.Amt), Total: uint64(h.MppTotalAmt),
 			Expiry: h.Expiry, AccH: h.AcceptHeight, AccT: int64(h.AcceptTime.Sub(startTime) / time.Second)}
 		if h.AMP != nil {
 			ho.Set = setNumber(h.AMP.Record.SetID())
@@ -945,7 +1002,7 @@ func observe(inv *invpkg.Invoice) invObs {
 	for id, st := range inv.AMPState {
 		a := ampObs{Set: setNumber(id), State: htlcStateName(st.State), Paid: uint64(st.AmtPaid)}
 		for ck := range st.InvoiceKeys {
-			a.Keys = append(a.Keys, keyIndex(ck))
+			a.Keys = append(a.Keys, ks.index(ck))
 		}
 		sort.Ints(a.Keys)
 		o.AMP = append(o.AMP, a)
@@ -959,6 +1016,7 @@ type side struct {
 	name   string
 	kind   Kind
 	two    bool
+	ks     *keyScheme
 	raw    invpkg.InvoiceDB
 	reg    *invpkg.InvoiceRegistry
 	clk    *vclock
@@ -979,8 +1037,8 @@ type side struct {
 	stalled string
 }
 
-func newSide(name string, k Kind, two bool) (*side, error) {
-	s := &side{name: name, kind: k, two: two, hodl: make(chan interface{}, 256), hist: map[int]int{}, armed: map[int]bool{},
+func newSide(name string, k Kind, two bool, ks *keyScheme) (*side, error) {
+	s := &side{name: name, kind: k, two: two, ks: ks, hodl: make(chan interface{}, 256), hist: map[int]int{}, armed: map[int]bool{},
 		gate: newTxGate(), icpt: &keyedInterceptor{}}
 	s.dbClk = clock.NewTestClock(startTime)
 	s.clk = newVclock(startTime)
@@ -1094,7 +1152,7 @@ func (s *side) lookupBystander() invObs {
 		}
 		return invObs{Err: firstLine(err.Error())}
 	}
-	return observe(&inv)
+	return observe(s.ks, &inv)
 }
 
 // lookup reads the one invoice of the universe through the registry.
@@ -1118,10 +1176,10 @@ func (s *side) lookup() invObs {
 		}
 		return invObs{Err: firstLine(err.Error())}
 	}
-	return observe(&inv)
+	return observe(s.ks, &inv)
 }
 
-func verdictOf(res invpkg.HtlcResolution, err error, key int) Verdict {
+func (s *side) verdictOf(res invpkg.HtlcResolution, err error, key int) Verdict {
 	switch {
 	case err != nil:
 		return Verdict{Kind: "error", Outcome: firstLine(err.Error()), Key: key}
@@ -1131,9 +1189,9 @@ func verdictOf(res invpkg.HtlcResolution, err error, key int) Verdict {
 	switch r := res.(type) {
 	case *invpkg.HtlcSettleResolution:
 		p := r.Preimage
-		return Verdict{Kind: "settle", Outcome: r.Outcome.String(), Preimage: &p, Key: keyIndex(r.CircuitKey())}
+		return Verdict{Kind: "settle", Outcome: r.Outcome.String(), Preimage: &p, Key: s.ks.index(r.CircuitKey())}
 	case *invpkg.HtlcFailResolution:
-		return Verdict{Kind: "fail", Outcome: r.Outcome.String(), Key: keyIndex(r.CircuitKey())}
+		return Verdict{Kind: "fail", Outcome: r.Outcome.String(), Key: s.ks.index(r.CircuitKey())}
 	}
 	return Verdict{Kind: "error", Outcome: fmt.Sprintf("unknown resolution %T", res), Key: key}
 }
@@ -1145,7 +1203,7 @@ func (s *side) drain() []Verdict {
 		select {
 		case m := <-s.hodl:
 			if r, ok := m.(invpkg.HtlcResolution); ok {
-				out = append(out, verdictOf(r, nil, 0))
+				out = append(out, s.verdictOf(r, nil, 0))
 			} else {
 				out = append(out, Verdict{Kind: "error", Outcome: fmt.Sprintf("hodl channel carried %T", m)})
 			}
@@ -1156,12 +1214,12 @@ func (s *side) drain() []Verdict {
 }
 
 func (s *side) notify(spec htlcSpec, key int, height int32) Verdict {
-	s.icpt.set(circuitKey(key), spec.Icpt)
+	s.icpt.set(s.ks.key(key), spec.Icpt)
 	res, err := s.reg.NotifyExitHopHtlc(
 		spec.hash(s.kind), lnwire.MilliSatoshi(spec.Amt), spec.absExpiry(s.kind), height,
-		circuitKey(key), s.hodl, nil, spec.payload(),
+		s.ks.key(key), s.hodl, nil, spec.payload(),
 	)
-	return verdictOf(res, err, key)
+	return s.verdictOf(res, err, key)
 }
 
 // stallGuard bounds how long the timeout event waits for a completion signal. It is not an
@@ -1194,7 +1252,7 @@ func (s *side) timeout(pre invObs) []Verdict {
 				out = append(out, Verdict{Kind: "error", Outcome: fmt.Sprintf("hodl channel carried %T", m)})
 				continue
 			}
-			v := verdictOf(r, nil, 0)
+			v := s.verdictOf(r, nil, 0)
 			out = append(out, v)
 			delete(due, v.Key)
 		case <-guard.C:
@@ -1217,7 +1275,7 @@ func (s *side) awaitHodl() (Verdict, bool) {
 	select {
 	case m := <-s.hodl:
 		if r, ok := m.(invpkg.HtlcResolution); ok {
-			return verdictOf(r, nil, 0), true
+			return s.verdictOf(r, nil, 0), true
 		}
 		return Verdict{Kind: "error", Outcome: fmt.Sprintf("hodl channel carried %T", m)}, true
 	case <-guard.C:
